@@ -75,7 +75,7 @@ def main():
     maxd = 16 if thorough else 10
     r0 = tlc.run("ParseCostTrace", cfg_text="SPECIFICATION Spec\nCONSTANTS\n  MaxD = 12\n  Alts = 3\nCHECK_DEADLOCK FALSE\n",
                  env={"TRACE_FILE": _empty()}, timeout=300)     # evaluates the ASSUME of ParseCost (the cost model)
-    req = [{"name": n, "d": d} for n in ("namespace-depth", "template-depth", "both", "file-size") for d in range(1, maxd + 1)]
+    req = [{"name": n, "d": d} for n in ("namespace-depth", "template-depth", "both", "file-size", "namespace-populated") for d in range(1, maxd + 1)]
     fd, path = tempfile.mkstemp(prefix="fam_", suffix=".json")
     try:
         with os.fdopen(fd, "w") as f:
